@@ -10,6 +10,7 @@ import (
 	"strings"
 	"sync"
 	"sync/atomic"
+	"time"
 
 	"github.com/mmcloughlin/addchain"
 )
@@ -76,7 +77,14 @@ type Gen struct {
 }
 
 // Line writes one protocol line.
+// pendingSince: unix time of the last Pending record that no Line has followed yet (0 = none). The
+// watchdog of main.go ends the process with a Go-runtime-style "fatal error:" line when a pending case
+// has not returned for VERIF_STALL_SECONDS (default 900): a call of the code under test that never
+// returns then becomes a replay through the pending-case record, instead of blocking the check.
+var pendingSince atomic.Int64
+
 func (g *Gen) Line(fields ...string) {
+	pendingSince.Store(0)
 	for i, f := range fields {
 		if f == "" {
 			fields[i] = "-"
@@ -88,6 +96,9 @@ func (g *Gen) Line(fields ...string) {
 }
 
 func (g *Gen) Count(k string) { g.Stats[k]++ }
+
+// Returned marks the pending case as finished when no Line follows it (probes judged on the Go side).
+func (g *Gen) Returned() { pendingSince.Store(0) }
 
 // Pending records the case that is about to be executed (see PendingPath).
 func (g *Gen) Pending(fields ...string) {
@@ -110,6 +121,7 @@ func (g *Gen) Pending(fields ...string) {
 	}
 	g.pendLen = n
 	_, _ = g.pendFile.WriteAt(append(b, '\n'), 0)
+	pendingSince.Store(time.Now().Unix())
 }
 
 // failAfter is a writer that accepts n bytes and then fails: the code under test must report the error.
